@@ -669,7 +669,7 @@ pub fn run(ctx: &Ctx) -> Report {
                     if w2 == w && marker.is_none() && seen.contains(&(w2.clone(), None)) {
                         continue;
                     }
-                    if marker.is_some() && (from_marker || (!thorough && p2.len() > 2)) {
+                    if marker.is_some() && (from_marker || p2.len() > if thorough { 3 } else { 2 }) {
                         continue;
                     }
                     if let Some(mk) = marker {
